@@ -523,3 +523,111 @@ Definition tie_free (deadline : N) (plans : list (list call)) : bool :=
                  && Nat.leb (count_eq w (starts plans))
                             (count_eq w (map k_start (filter (fun k => is_ok (k_out k) && (k_finish k =? w)) (concat plans))))
      end.
+
+(* ------------------------------------------------------------------------------------------- *)
+(* Time and the context.  Every provider takes its time, and -- like a real client -- gives up with
+   the context's error when the context it was handed ends before its answer is ready (or has ended
+   before it was asked).  Propose hands the context it was given, unchanged, to every step: the
+   graffiti provider, the auctioneer, the beacon node, the signer (domain provider, account), the
+   relays, the submitter; the steps run one after the other, each starting when the previous one
+   returned.  So which scripted answers are replaced by the context's error is a matter of the
+   latencies and of the ONE deadline [e_deadline]; what Propose then does is [propose] on those
+   answers ([apply_cuts]), the relays being started when the signature came back ([t_t0]). *)
+
+Record lats := {
+  l_graffiti : N; l_auction : N; l_proposal : N; l_domain : N; l_sign : N; l_submit : N
+}.
+
+(* which sequential answers were cut short by the end of the context *)
+Record cuts := { x_graffiti : bool; x_auction : bool; x_proposal : bool; x_domain : bool; x_sign : bool }.
+
+Definition no_cuts : cuts :=
+  {| x_graffiti := false; x_auction := false; x_proposal := false; x_domain := false; x_sign := false |}.
+Definition zero_lats : lats :=
+  {| l_graffiti := 0; l_auction := 0; l_proposal := 0; l_domain := 0; l_sign := 0; l_submit := 0 |}.
+
+(* a call made at [t] to a provider that needs [L] ms, with a context that ends at [D]: when it returns *)
+Definition adv (D t L : N) : N := if t <? D then N.min (t + L) D else t.
+(* ... and whether it returns its own answer *)
+Definition in_time (D t L : N) : bool := t + L <? D.
+
+(* a provider that is not configured is not asked *)
+Definition graffiti_lat (e : env) (l : lats) : N := match e_graffiti e with GNone => 0 | _ => l_graffiti l end.
+Definition auction_lat (e : env) (l : lats) : N := match e_auction e with ANone => 0 | _ => l_auction l end.
+
+Definition cuts_of (e : env) (l : lats) : cuts :=
+  let D := e_deadline e in
+  let t1 := adv D 0 (graffiti_lat e l) in
+  let t2 := adv D t1 (auction_lat e l) in
+  let t3 := adv D t2 (l_proposal l) in
+  let t4 := adv D t3 (l_domain l) in
+  {| x_graffiti := negb (in_time D 0 (graffiti_lat e l));
+     x_auction := negb (in_time D t1 (auction_lat e l));
+     x_proposal := negb (in_time D t2 (l_proposal l));
+     x_domain := negb (in_time D t3 (l_domain l));
+     x_sign := negb (in_time D t4 (l_sign l)) |}.
+
+(* the answers as they were actually given, and the time left for the relays *)
+Definition apply_cuts (e : env) (x : cuts) (deadline : N) : env :=
+  {| e_accounts := e_accounts e; e_dom_randao := e_dom_randao e; e_sig_randao := e_sig_randao e;
+     e_graffiti := match e_graffiti e with GNone => GNone | g => if x_graffiti x then GErr else g end;
+     e_head := e_head e;
+     e_auction := match e_auction e with ANone => ANone | a => if x_auction x then AErr else a end;
+     e_proposal := if x_proposal x then PErr else e_proposal e;
+     e_dom_block := e_dom_block e && negb (x_domain x);
+     e_sig_block := if x_sign x then None else e_sig_block e;
+     e_relays := e_relays e; e_submit_ok := e_submit_ok e; e_deadline := deadline |}.
+
+Definition ev_lat (l : lats) (ev : event) : N :=
+  match ev with
+  | EGraffiti _ _ => l_graffiti l
+  | EAuction _ _ _ => l_auction l
+  | EProposal _ _ _ _ => l_proposal l
+  | EDomain _ _ => l_domain l
+  | ESignBlock _ _ _ _ _ _ _ => l_sign l
+  | _ => 0
+  end.
+
+(* the instant each request is made, and the instant the last answer is back *)
+Fixpoint stamps (D : N) (l : lats) (t : N) (evs : list event) : list N * N :=
+  match evs with
+  | [] => ([], t)
+  | ev :: rest => let '(ts, tend) := stamps D l (adv D t (ev_lat l ev)) rest in (t :: ts, tend)
+  end.
+
+Record timed := {
+  t_cuts : cuts;
+  t_times : list N;          (* the instant of each request of [o_events t_res] *)
+  t_live : list bool;        (* was the context it was made with still alive *)
+  t_t0 : N;                  (* the instant the last of these answers came back *)
+  t_res : result;            (* relay calls, submission and [o_ret] in ms after [t_t0]; [o_ret]: the instant
+                                Propose returns or, if it submits, hands the block to the submitter *)
+  t_ret : N;                 (* the instant Propose returns *)
+  t_sub_cut : bool           (* the submission was cut short by the end of the context *)
+}.
+
+Definition propose_t (c : config) (e : env) (l : lats) (d : duty) : timed :=
+  let D := e_deadline e in
+  let x := cuts_of e l in
+  let evs := fst (sign_phase c (apply_cuts e x D) d) in
+  let '(ts, t0) := stamps D l 0 evs in
+  let r := propose c (apply_cuts e x (D - t0)) d in
+  {| t_cuts := x; t_times := ts; t_live := map (fun t => t <? D) ts; t_t0 := t0; t_res := r;
+     t_ret := match o_submit r with Some (s, _) => adv D (s + t0) (l_submit l) | None => o_ret r + t0 end;
+     t_sub_cut := match o_submit r with Some (s, _) => negb (in_time D (s + t0) (l_submit l)) | None => false end |}.
+
+(* the whole scripted time line of the steps up to the signature *)
+Definition budget (e : env) (l : lats) : N :=
+  graffiti_lat e l + auction_lat e l + l_proposal l + l_domain l + l_sign l.
+
+(* an answer that would be ready at the very instant the context ends: Go's select decides *)
+Definition step_tie (D t L : N) : bool := (t <? D) && (t + L =? D).
+
+Definition steps_tie (e : env) (l : lats) : bool :=
+  let D := e_deadline e in
+  let t1 := adv D 0 (graffiti_lat e l) in
+  let t2 := adv D t1 (auction_lat e l) in
+  let t3 := adv D t2 (l_proposal l) in
+  let t4 := adv D t3 (l_domain l) in
+  step_tie D 0 (graffiti_lat e l) || step_tie D t1 (auction_lat e l) || step_tie D t2 (l_proposal l)
+  || step_tie D t3 (l_domain l) || step_tie D t4 (l_sign l).
